@@ -12,7 +12,7 @@ PROPERTY = "C06"
 RULE = ("A MADE network from either copy (nflows.transforms.made, nflows.nn.nde.made incl. MixtureOfGaussiansMADE): exhaustive grid "
         "features 1-5 x hidden 1-7 x blocks 0-2 x {residual, feed-forward} x {sequential, random mask (3 seeds)} x context "
         "{none, 2} x output multiplier 1-3 x batch-norm on/off (thorough: features<=6, hidden<=9, blocks<=3, multiplier<=4, 8 seeds), "
-        "plus Hypothesis-generated larger sizes. Oracle A (all weights at once): identity activation, EVERY weight and bias "
+        "plus Hypothesis-generated larger sizes (features up to 12 and 64/129/257/300 with hidden 128-320). Oracle A (all weights at once): identity activation, EVERY weight and bias "
         "entry (masked positions included) overwritten by strictly positive numbers -> Jacobian entry d out_j/d in_i is > 0 iff "
         "an unmasked path exists; assert exact zeros for i >= feature(j) and report how many allowed entries are positive. "
         "Oracle B: signed weights + relu/tanh, perturb inputs i.. (all rows, train or eval mode, dropout off) -> output blocks "
@@ -51,17 +51,26 @@ def enumerate_cases(tier):
 
 @st.composite
 def _case(draw):
-    copy = draw(st.sampled_from(["transforms", "nde", "mog", "ar_affine", "ar_rq", "mog"]))
+    copy = draw(st.sampled_from(["transforms", "nde", "mog", "ar_affine", "ar_rq", "mog", "ar_lin", "ar_quad", "ar_cub", "ar_umnn"]))
     res = draw(st.booleans())
-    c = {"copy": copy, "features": draw(st.integers(1, 12)), "hidden": draw(st.integers(1, 40)), "blocks": draw(st.integers(0, 3)),
+    big = draw(st.integers(0, 9)) == 0 and copy in ("transforms", "nde")
+    c = {"copy": copy, "features": draw(st.sampled_from([64, 129, 257, 300])) if big else draw(st.integers(1, 12)),
+         "hidden": draw(st.sampled_from([128, 255, 256, 257, 320])) if big else draw(st.integers(1, 40)), "blocks": draw(st.integers(0, 2 if big else 3)),
          "ctx": draw(st.sampled_from([None, 1, 3])), "mult": draw(st.integers(1, 4)), "bn": draw(st.booleans()),
          "res": res, "randmask": (not res) and draw(st.booleans()), "seed": draw(st.integers(0, 10 ** 6)),
          "oracle": draw(st.sampled_from(["sign", "perturb", "perturb"])), "act": draw(st.sampled_from(["relu", "tanh"])),
          "train": draw(st.booleans()), "dropout": draw(st.sampled_from([0.0, 0.0, 0.5])), "rows": draw(st.integers(1, 4)),
          "wseed": draw(st.integers(0, 10 ** 6)), "after": draw(st.sampled_from(["assign", "load_state_dict", "sgd"]))}
-    if copy in ("ar_affine", "ar_rq", "mog"):
+    if big:
+        c["mult"], c["oracle"], c["bn"] = 1, "sign", False
+    if copy.startswith("ar_") or copy == "mog":
         c["oracle"] = "perturb" if copy == "mog" else "jac"
         c["mult"] = draw(st.integers(1, 3))  # mixture components for mog
+    if copy == "ar_umnn":
+        c["features"] = draw(st.integers(1, 4))
+        c["cond_size"] = draw(st.sampled_from([1, 2, 4, 6]))
+        c["solver"] = draw(st.sampled_from(["CC", "CCParallel"]))
+        c["bn"] = False
     return c
 
 
@@ -118,7 +127,9 @@ def run_case(case):
     res = CaseResult()
     f, mult = case["features"], case["mult"]
     site = {"transforms": "transforms/made.py:MADE", "nde": "nn/nde/made.py:MADE", "mog": "nn/nde/made.py:MixtureOfGaussiansMADE",
-            "ar_affine": "MaskedAffineAutoregressiveTransform", "ar_rq": "MaskedPiecewiseRationalQuadraticAutoregressiveTransform"}[case["copy"]]
+            "ar_affine": "MaskedAffineAutoregressiveTransform", "ar_rq": "MaskedPiecewiseRationalQuadraticAutoregressiveTransform",
+            "ar_lin": "MaskedPiecewiseLinearAutoregressiveTransform", "ar_quad": "MaskedPiecewiseQuadraticAutoregressiveTransform",
+            "ar_cub": "MaskedPiecewiseCubicAutoregressiveTransform", "ar_umnn": "MaskedUMNNAutoregressiveTransform"}[case["copy"]]
     res.labels += ["copy:" + case["copy"], "oracle:" + case["oracle"], "blocks:%d" % case["blocks"],
                    "res" if case["res"] else ("ff-rand" if case["randmask"] else "ff-seq"), "bn:%s" % case["bn"], "ctx:%s" % (case["ctx"] is not None)]
     with dtype_mode(True):
@@ -212,21 +223,42 @@ def run_case(case):
             g = torch.random.get_rng_state()
             torch.manual_seed(case["seed"])
             try:
-                t = T.MaskedAffineAutoregressiveTransform(**kw) if case["copy"] == "ar_affine" else \
-                    T.MaskedPiecewiseRationalQuadraticAutoregressiveTransform(num_bins=3, tails="linear", tail_bound=2.0, **kw)
+                cp = case["copy"]
+                if cp == "ar_affine":
+                    t = T.MaskedAffineAutoregressiveTransform(**kw)
+                elif cp == "ar_lin":
+                    t = T.MaskedPiecewiseLinearAutoregressiveTransform(num_bins=3, **kw)
+                elif cp == "ar_quad":
+                    t = T.MaskedPiecewiseQuadraticAutoregressiveTransform(num_bins=3, tails="linear", tail_bound=2.0, **kw)
+                elif cp == "ar_cub":
+                    t = T.MaskedPiecewiseCubicAutoregressiveTransform(num_bins=3, **kw)
+                elif cp == "ar_umnn":
+                    kw.pop("use_batch_norm")
+                    t = T.MaskedUMNNAutoregressiveTransform(integrand_net_layers=[6, 6], cond_size=case.get("cond_size", 2), nb_steps=12,
+                                                           solver=case.get("solver", "CC"), use_batch_norm=False, **kw)
+                else:
+                    t = T.MaskedPiecewiseRationalQuadraticAutoregressiveTransform(num_bins=3, tails="linear", tail_bound=2.0, **kw)
             finally:
                 torch.random.set_rng_state(g)
             _overwrite(t, gen, positive=False)
             t.eval()
-            x = torch.randn(1, f, generator=gen)
+            x = torch.rand(1, f, generator=gen) * 0.9 + 0.05 if case["copy"] in ("ar_lin", "ar_cub") else torch.randn(1, f, generator=gen)
             ctx = torch.randn(1, case["ctx"], generator=gen) if case["ctx"] else None
             J = torch.autograd.functional.jacobian(lambda v: t(v, ctx)[0][0], x)[:, 0, :]
             upper = torch.triu(J, diagonal=1)
             if bool((upper != 0).any()):
                 j, i = [int(v) for v in (upper != 0).nonzero()[0]]
                 res.fail("jacobian_not_triangular", site, "d out_%d / d in_%d = %g" % (j, i, float(J[j, i])))
+            if bool((torch.diagonal(J) <= 1e-12).any()) and case["copy"] not in ("ar_affine", "ar_rq"):
+                # +-1 weights through 40 hidden units drive softmax bins / the UMNN integrand to exact underflow: the triangular
+                # structure (above) is decided, positivity and exact inversion are not meaningful for a singular Jacobian
+                res.labels.append("degenerate_diagonal")
+                res.inconclusive += 1
+                res.nontrivial = f >= 2
+                return res
             if bool((torch.diagonal(J) <= 0).any()):
                 res.fail("nonpositive_diagonal", site, "diagonal %s" % torch.diagonal(J).tolist())
+                return res
             _, ld = t(x, ctx)
             want = float(torch.log(torch.diagonal(J)).sum())
             if abs(float(ld[0]) - want) > 1e-8 * (1 + abs(want)):
@@ -236,7 +268,9 @@ def run_case(case):
             xb, _ = t.inverse(y, ctx)
             Ji = torch.linalg.inv(J)
             kap = float(Ji.abs().sum(1).max()) * (1 + float(J.abs().sum(1).max()))
-            if kap < 1e6 and float((xb - x).abs().max()) > 1e-8 * (1 + float(x.abs().max())) * kap * f:
+            # (UMNN inverts by 25 bisection steps on [-20, 20]: declared resolution 40 / 2^25 per feature, propagated through the pass)
+            decl = 40.0 / 2 ** 25 * 2 if case["copy"] == "ar_umnn" else 0.0
+            if kap < 1e6 and float((xb - x).abs().max()) > (1e-8 * (1 + float(x.abs().max())) + decl) * kap * f:
                 res.fail("inverse_not_exact", site, "inverse after %d passes off by %g (kappa %g)" % (f, float((xb - x).abs().max()), kap))
             res.nontrivial = f >= 2
             return res
